@@ -113,7 +113,8 @@ def gen_parse(rng):
     t = rng.choice(R.TEMPLATES)
     op = ["parse", t["name"], gen_dt(rng), None, 0,
           rng.choice(["module", "module", "p0", "p1", "info", "pinfo"]),
-          rng.choice(["str", "str", "str", "bytes", "stringio"]),
+          rng.choice(["str", "str", "str", "bytes", "stringio",
+                      "shortstream"]),
           rng.choice(["explicit", "explicit", "clock"])]
     if t["has_time"] and rng.random() < 0.6:
         op[3] = rng.choice(R.OFFSET_FORMS)
@@ -138,6 +139,11 @@ def gen_world(rng):
         return ["tick", rng.choice([1, 2, 3600, 86400, 86400 * 366])]
     if r < 0.8:
         return ["jump", rng.choice(CLOCKS)]
+    if r < 0.88:
+        # the calling thread's decimal context: seconds are read through
+        # Decimal, whose arithmetic follows this thread-wide configuration
+        return ["decimal", rng.choice([28, 9, 6, 3]),
+                rng.choice(["ROUND_HALF_EVEN", "ROUND_DOWN", "ROUND_UP"])]
     return ["new_parser", rng.choice([0, 1])]
 
 
@@ -225,6 +231,12 @@ class Env(object):
             self.clock.set(op[1])
         elif op[0] == "new_parser":
             self.new_parser(op[1])
+        elif op[0] == "decimal":
+            import decimal
+            c = decimal.getcontext()
+            c.prec = op[1]
+            c.rounding = getattr(decimal, op[2])
+            self.ctx.probe("decimal_context_changed")
         self.config_events += 1
         self.ctx.event("world", op)
 
@@ -274,6 +286,10 @@ def do_parse(env, op, text, flags):
         x = text.encode("ascii")
     elif inform == "stringio":
         x = io.StringIO(text)
+    elif inform == "shortstream":
+        # a text stream that delivers legal short reads
+        from dsim.simfs import ShortTextStream
+        x = ShortTextStream(text, len(text))
     else:
         x = text
     if via == "module":
